@@ -147,6 +147,20 @@ fn files(ctx: &Ctx) -> Vec<File> {
             }
         }
     }
+    // large samples (> 64 KiB): moov first, so that cuts inside the media data still open
+    {
+        let raw = |size: u32, cb: bool| gen::RawSample { size, dur: 10, cts: 0, sync: true, chunk_break: cb, stsc_break: false, stts_break: false, ctts_break: false };
+        let opts = gen::TrackOpts { co64: false, fixed_stsz: false, uniform_size: None, uniform_dur: None, has_ctts: false, has_stss: false, sync_mode: 0 };
+        let t = gen::assemble_track(1, crate::refmp4::movie::Codec::Hevc { width: 8, height: 8 }, 1000, *b"und", &[raw(100_000, true), raw(70_001, false), raw(65_537, true), raw(9, true)], &opts);
+        let m = gen::movie_shell(vec![t]);
+        v.push(File { name: "large-samples".into(), full: build(&m).bytes, init: None });
+        // the same as fragments, as one stream: a cut moof/mdat pair at the end opens with the earlier fragments
+        let mut fm = adv::kitchen_sink_frag(0);
+        fm.frags[0].trafs.truncate(1);
+        fm.frags[0].trafs[0].samples = vec![crate::refmp4::movie::Sample { size: 90_000, dur: 5, cts: 0, sync: true }, crate::refmp4::movie::Sample { size: 66_000, dur: 5, cts: 0, sync: true }];
+        fm.frags.truncate(1);
+        v.push(File { name: "large-fragment-samples".into(), full: build(&fm).bytes, init: None });
+    }
     v.push(File { name: "minimal.mp4".into(), full: adv::canned("minimal.mp4"), init: None });
     v.push(File { name: "minimal_init.mp4".into(), full: adv::canned("minimal_init.mp4"), init: None });
     v.push(File { name: "minimal_fragment.m4s".into(), full: adv::canned("minimal_fragment.m4s"), init: Some(adv::canned("minimal_init.mp4")) });
@@ -171,7 +185,42 @@ pub fn run(ctx: &mut Ctx) {
         };
         let tops: Vec<usize> = parse::walk_lenient(&f.full).iter().map(|b| b.start).collect();
         let nsamples: usize = base.iter().map(|(_, v)| v.len()).sum();
+        // small files: every cut; large files: every cut within 64 bytes of a box boundary or of a
+        // sample boundary / 64 KiB mark inside a sample, plus a prime stride
+        let large = f.full.len() > 20_000;
+        let mut marks: Vec<usize> = Vec::new();
+        if large {
+            fn collect(b: &[parse::PBox], out: &mut Vec<usize>) {
+                for x in b {
+                    out.push(x.start);
+                    out.push(x.end());
+                    collect(&x.children, out);
+                }
+            }
+            collect(&parse::walk_lenient(&f.full), &mut marks);
+            if let Ok((mut r, _)) = open_any(&f.full, f.init.as_deref()).and_then(|x| x.map_err(|e| Failure::new("x", e))) {
+                for (id, samples) in &base {
+                    for k in 1..=samples.len() as u32 {
+                        if let Ok(off) = r.sample_offset(*id, k) {
+                            let size = samples[k as usize - 1].as_ref().map(|s| s.bytes.len()).unwrap_or(0);
+                            marks.push(off as usize);
+                            marks.push(off as usize + size);
+                            let mut m = 65536;
+                            while m < size {
+                                marks.push(off as usize + m);
+                                m += 65536;
+                            }
+                        }
+                    }
+                }
+            }
+            marks.sort();
+            marks.dedup();
+        }
         for cut in 0..f.full.len() {
+            if large && cut % 211 != 0 && !marks.iter().any(|m| (*m as i64 - cut as i64).abs() <= 64) {
+                continue;
+            }
             let my = idx;
             idx += 1;
             if !ctx.enter(my) {
